@@ -107,7 +107,7 @@ type c18Limits struct {
 
 func c18LimitsFor(tier string) c18Limits {
 	if tier == "thorough" {
-		return c18Limits{exhaustive: 12000, sampled: 2000, allCombos: true, genPerFmt: 30, lists: 150, wExhaustive: 20000, wSampled: 2000,
+		return c18Limits{exhaustive: 12000, sampled: 2000, allCombos: true, genPerFmt: 14, lists: 150, wExhaustive: 20000, wSampled: 2000,
 			longLens: []int{65535, 65536, 65537, 1 << 17, 1 << 18, 1 << 20}}
 	}
 	if tier == "smoke" { // determinism self-test only
